@@ -98,7 +98,9 @@ def handle : List String → String
     let head := [substXml X s, substXmlCE T X s, substHtml T s, substHtml5 T s, substHtml5Raw T s, quoteAttr s, substHtml5Old T s]
     let reads := subs.flatMap fun o => [showL (readText T false 0 o), showL (quoteAttr o), showO (readAttr T (quoteAttr o))]
     let raw := [if s.contains 60 then "skip" else showL (readText T false 0 s), showO (readAttr T (quoteAttr s))]
-    " ".intercalate (head.map showL ++ reads ++ raw)
+    -- the hypothesis of `reader_attr_is_tokenizer`: the model of html.unescape on the bodies actually written
+    let un := subs.map fun o => showL (unescape T 0 ((quoteAttr o).drop 1).dropLast)
+    " ".intercalate (head.map showL ++ reads ++ raw ++ un)
   | _ => "bad-op"
 
 end BS.Drv.C09
